@@ -137,35 +137,35 @@ structure Loop (α : Type) where
   deltaw : Vec α
   oldDerivative : Vec α
 
-/-- body of the coordinate loop of `Rprop::step` for coordinate `i` -/
-def coord (o : Objective α) (s : Rprop α) (l : Loop α) (i : Nat) : Loop α :=
+/-- the branch taken by coordinate `i` of `Rprop::step`, before the feasibility test:
+(new delta_i, new deltaw_i, new oldDerivative, point_i before the step is added) -/
+def coordChoice (s : Rprop α) (l : Loop α) (i : Nat) : α × α × Vec α × α :=
   let p := Vec.get l.point i
   let di := Vec.get s.derivative i
   let direction := di * Vec.get l.oldDerivative i
   let old := l.oldDerivative.set i di
   let dl := Vec.get l.delta i
   let dw := Vec.get l.deltaw i
-  -- (delta_i, deltaw_i, oldDerivative, point_i before the step is added)
-  let r : α × α × Vec α × α :=
-    if Scalar.zero < direction then
-      let d' := Scalar.min s.maxDelta (s.increaseFactor * dl)
-      (d', negSignMul d' di, old, p)
-    else if direction < Scalar.zero then
-      let d' := Scalar.max s.minDelta (s.decreaseFactor * dl)
-      let old' := if s.useFreezing then old.set i Scalar.zero else old
-      if !s.useBacktracking then (d', negSignMul d' di, old', p)
-      else if !s.useOldValue || decide (s.oldValue < s.best.value) then (d', Scalar.zero, old', p - dw)
-      else (d', dw, old', p)
-    else (dl, negSignMul dl di, old, p)
-  let d' := r.1
-  let dw' := r.2.1
-  let old' := r.2.2.1
-  let pt := l.point.set i (r.2.2.2 + dw')
+  if Scalar.zero < direction then
+    let d' := Scalar.min s.maxDelta (s.increaseFactor * dl)
+    (d', negSignMul d' di, old, p)
+  else if direction < Scalar.zero then
+    let d' := Scalar.max s.minDelta (s.decreaseFactor * dl)
+    let old' := if s.useFreezing then old.set i Scalar.zero else old
+    if !s.useBacktracking then (d', negSignMul d' di, old', p)
+    else if !s.useOldValue || decide (s.oldValue < s.best.value) then (d', Scalar.zero, old', p - dw)
+    else (d', dw, old', p)      -- the stale `deltaw` of the previous step is applied again
+  else (dl, negSignMul dl di, old, p)
+
+/-- body of the coordinate loop of `Rprop::step` for coordinate `i` -/
+def coord (o : Objective α) (s : Rprop α) (l : Loop α) (i : Nat) : Loop α :=
+  let r := coordChoice s l i
+  let pt := l.point.set i (r.2.2.2 + r.2.1)
   if o.feasible pt then
-    { point := pt, delta := l.delta.set i d', deltaw := l.deltaw.set i dw', oldDerivative := old' }
+    { point := pt, delta := l.delta.set i r.1, deltaw := l.deltaw.set i r.2.1, oldDerivative := r.2.2.1 }
   else
-    { point := pt.set i p, delta := l.delta.set i (d' * s.decreaseFactor),
-      deltaw := l.deltaw.set i dw', oldDerivative := old'.set i Scalar.zero }
+    { point := pt.set i (Vec.get l.point i), delta := l.delta.set i (r.1 * s.decreaseFactor),
+      deltaw := l.deltaw.set i r.2.1, oldDerivative := r.2.2.1.set i Scalar.zero }
 
 def init (o : Objective α) (inc dec maxD minD : α) (fr bt ov : Bool) (big initDelta : α) (x0 : Vec α) : Rprop α :=
   { increaseFactor := inc, decreaseFactor := dec, maxDelta := maxD, minDelta := minD,
